@@ -5,9 +5,9 @@
 package controls
 
 import (
-	"os"
 	"errors"
 	"net/http"
+	"os"
 	"sync"
 )
 
